@@ -5,9 +5,9 @@ NAME=$1; shift
 ALT=/tmp/repo-alt$ALT_TAG      # ALT_TAG=2 etc.: a second scratch worktree and build directory for a parallel batch
 if [ ! -d $ALT ]; then git -C /repo worktree add -q --detach $ALT HEAD || exit 2; fi
 cd $ALT || exit 2
-git checkout -q --detach $(git -C /repo rev-parse HEAD) 2>/dev/null; git checkout -q -- . 
+git checkout -q --detach $(git -C /repo rev-parse HEAD) 2>/dev/null; git checkout -q -- . ; git clean -fdq
 git apply /verif/seeded/$NAME/patch.diff || { echo "patch does not apply"; exit 2; }
-trap 'cd '$ALT' && git checkout -q -- . ' EXIT
+trap 'cd '$ALT' && git checkout -q -- . && git clean -fdq' EXIT
 cd /verif
 for c in "$@"; do
   out=$(VERIF_REPO=$ALT VERIF_ALT_TAG=$ALT_TAG timeout 2400 ./check $c --tier quick 2>&1); rc=$?
